@@ -31,7 +31,7 @@ def run(R, ctx):
     try_from(R, ctx)
     c06.open_flags(R, ctx, rule='R16.6')
     directory(R, ctx)
-
+    family_predicate_proxy(R, ctx, 'R16.6', 'existing_log_files lists exactly the family: the predicate of the listing agrees with the naming (shared with R14.2)')
 
 def purity(R, ctx):
     f, cg = ctx.f, ctx.cg
